@@ -16,6 +16,7 @@ from rv.core import instrument
 
 ANCHORS = ("audio/io.py", "audio/operations.py", "audio/spectrograms.py", "arrays/dimensions.py")
 THOROUGH_SHARDS = 10
+AMBIENT_TESTS = ["tests/test_audio"]
 _installed = False
 _TMP = None
 _FILES: dict = {}
